@@ -24,7 +24,7 @@ func init() {
 			"the with-expressions of the sandboxed include itself are written in the outer template and evaluated with outer permissions",
 			"macro calls count as function calls for the policy check (observed behaviour), so macro names used inside the sandbox are allowed functions",
 		},
-		quick: 38*13*2*4*2 + 24000, thorough: 38*13*2*4*2 + 400000, minQuick: 3000, minThorough: 60000,
+		quick: 38*16*2*4*2 + 24000, thorough: 38*16*2*4*2 + 400000, minQuick: 3000, minThorough: 60000,
 	}})
 }
 
@@ -91,7 +91,7 @@ var c06Positions = []string{
 	"SPYONLY:{% macro X_FN() %}mac{% endmacro %}{{ xs.X_FN() }}{% for i in xs %}{{ i.X_FN() }}{% endfor %}",
 }
 
-const c06Routes = 13
+const c06Routes = 16
 
 func c06Expand(pos string, kind string, name string) (string, bool) {
 	app := "v|" + name
@@ -176,6 +176,17 @@ func c06Build(route int, frag string) map[string]string {
 		t["sb"] = "{% extends 'lay' %}{% block b %}ovr{% endblock %}"
 		t["lay"] = "L:{{ mac() }}{% block b %}dflt{% endblock %}"
 		t["mlib"] = "{% macro mac() %}M:" + frag + "{% endmacro %}"
+	case 13:
+		// code at the top level of a library (outside its macros) runs when the sandboxed template imports the library
+		t["sb"] = "S:{% from 'mlib' import mac %}{{ mac() }}"
+		t["mlib"] = "{% set v = 'vv' %}{% set xs = [1] %}{% set yes = true %}T:" + frag + "{% macro mac() %}M{% endmacro %}"
+	case 14:
+		t["sb"] = "S:{% import 'mlib' as ml %}{{ ml.mac() }}"
+		t["mlib"] = "{% set v = 'vv' %}{% set xs = [1] %}{% set yes = true %}T:" + frag + "{% macro mac() %}M{% endmacro %}"
+	case 15:
+		t["sb"] = "S:{% include 'in1' %}"
+		t["in1"] = "I:{% from 'mlib' import mac %}{{ mac() }}"
+		t["mlib"] = "{% macro mac() %}M{% endmacro %}{% set v = 'vv' %}{% set xs = [1] %}{% set yes = true %}T:" + frag
 	default:
 		t["sb"] = "S:{% include 'in1' %}"
 		t["in1"] = "I:{% include 'in2' only %}"
